@@ -373,8 +373,17 @@ class Ctx:
                         out.append(z3.Implies(z3.And(ai[0] > 0, ai[0] * aj[0] == 1), vi == -vj))
                     elif fname in ("sin", "tan", "asin", "atan"):
                         out.append(z3.Implies(ai[0] == -aj[0], vi == -vj))
+                        if fname == "sin":      # shifts by pi / 2 pi; reflection about pi/2
+                            out.append(z3.Implies(z3.Or(ai[0] - aj[0] == self.pi, aj[0] - ai[0] == self.pi), vi == -vj))
+                            out.append(z3.Implies(z3.Or(ai[0] - aj[0] == 2 * self.pi, aj[0] - ai[0] == 2 * self.pi), vi == vj))
+                            out.append(z3.Implies(ai[0] + aj[0] == self.pi, vi == vj))
+                        if fname == "tan":
+                            out.append(z3.Implies(z3.Or(ai[0] - aj[0] == self.pi, aj[0] - ai[0] == self.pi), vi == vj))
                     elif fname == "cos":
                         out.append(z3.Implies(ai[0] == -aj[0], vi == vj))
+                        out.append(z3.Implies(z3.Or(ai[0] - aj[0] == self.pi, aj[0] - ai[0] == self.pi), vi == -vj))
+                        out.append(z3.Implies(z3.Or(ai[0] - aj[0] == 2 * self.pi, aj[0] - ai[0] == 2 * self.pi), vi == vj))
+                        out.append(z3.Implies(ai[0] + aj[0] == self.pi, vi == -vj))
                     elif fname.startswith("root"):
                         out.append(z3.Implies(z3.And(ai[0] >= 0, aj[0] >= 0, ai[0] < aj[0]), vi < vj))
                     elif fname == "pow":
@@ -429,6 +438,10 @@ class Ctx:
         for (as_, vs) in by_fn.get("sin", []):
             for (ac, vc) in by_fn.get("cos", []):
                 out.append(z3.Implies(as_[0] == ac[0], vs * vs + vc * vc == 1))
+                # quarter-period shifts: sin(u + pi/2) = cos(u), sin(u - pi/2) = -cos(u), sin(pi/2 - u) = cos(u)
+                out.append(z3.Implies(2 * (as_[0] - ac[0]) == self.pi, vs == vc))
+                out.append(z3.Implies(2 * (ac[0] - as_[0]) == self.pi, vs == -vc))
+                out.append(z3.Implies(2 * (as_[0] + ac[0]) == self.pi, vs == vc))
             for (at, vt) in by_fn.get("tan", []):
                 for (ac, vc) in by_fn.get("cos", []):
                     out.append(z3.Implies(z3.And(as_[0] == ac[0], at[0] == ac[0], vc != 0), vt * vc == vs))
